@@ -35,7 +35,7 @@ ANCHORS = [
     "acnportal.acnsim.analysis:energy_cost",
     "acnportal.acnsim.analysis:demand_charge",
 ]
-REQUIRED = ["runs_whose_peak_current_and_peak_power_fall_in_different_periods_billed_at_a_nonzero_demand_rate", "same_instant_in_several_zones", "vector_lookups_of_over_1000_periods", "cost_checks_under_another_tariff_in_the_same_process", "sub_second_instants", "vector_lookups_with_periods_of_days_or_months", "lookups_judged", "vector_lookups", "interface_price_vectors", "cost_checks", "regime:wrapped-season",
+REQUIRED = ["runs_whose_tariff_was_replaced_mid_run", "price_queries_before_a_tariff_was_attached", "runs_whose_peak_current_and_peak_power_fall_in_different_periods_billed_at_a_nonzero_demand_rate", "same_instant_in_several_zones", "vector_lookups_of_over_1000_periods", "cost_checks_under_another_tariff_in_the_same_process", "sub_second_instants", "vector_lookups_with_periods_of_days_or_months", "lookups_judged", "vector_lookups", "interface_price_vectors", "cost_checks", "regime:wrapped-season",
             "regime:weekend", "regime:weekday", "regime:leap-day"]
 BUDGET_S = {"quick": 240, "thorough": 3000}
 EXHAUSTIVE = {"quick": "all 14 calendar types x every day x boundary instants x 5 files",
@@ -329,18 +329,41 @@ def _run_sim(case, obs):
     sch = build.build_scheduler(d)
     seen = []
 
+    switch = None
+    if case["seed"] % 3 == 0:
+        # the tariff is attached only after the scheduler has already asked once (and been told there is none), and is replaced
+        # by another bundled tariff - a new signals mapping - in the middle of the run: every answer follows the mapping in force
+        other_ = rng.choice([f_ for f_ in FILES if f_ != name])
+        switch = {"at": rng.choice([1, 2, 3, 5]), "tar": _load(other_)[0], "orc": _load(other_)[1], "name": other_, "done_at": None, "n": 0}
+
     def hook(s, t, active):
         L = rng.choice([1, 3, 12])
         st = rng.choice([None, t, t + 2, 0])
         iface = s.interface
-        seen.append((t, L, st, np.array(iface.get_prices(L, st)), iface.get_demand_charge(st)))
+        if switch is not None:
+            switch["n"] += 1
+            if switch["n"] == switch["at"] and switch["done_at"] is None:
+                sim.signals = {"tariff": switch["tar"]}
+                switch["done_at"] = t
+        seen.append((t, L, st, np.array(iface.get_prices(L, st)), iface.get_demand_charge(st),
+                     switch is not None and switch["done_at"] is not None))
 
     sch.hook = hook
     sim, evs = build.build_sim(dict(d, signals=None), scheduler=sch)
+    if switch is not None:
+        try:
+            sch.interface.get_prices(1)
+            sch.interface.get_demand_charge()
+        except Exception:
+            obs.ev("price_queries_before_a_tariff_was_attached")
     sim.signals = {"tariff": tar}
     sim.run()
+    if switch is not None and switch["done_at"] is not None:
+        obs.ev("runs_whose_tariff_was_replaced_mid_run")
     start, per = sim.start, d["period"]
-    for t, L, st, prices, dc in seen:
+    orc0, name0 = orc, name
+    for t, L, st, prices, dc, switched in seen:
+        orc, name = (switch["orc"], switch["name"]) if switched else (orc0, name0)
         obs.ev("interface_price_vectors")
         s0 = t if st is None else st
         try:
@@ -356,6 +379,10 @@ def _run_sim(case, obs):
         if dc != edc:
             obs.violate("interface_demand_charge", f"t={t} start={st}: {dc!r} expected {edc!r}", file=name)
             return
+    if switch is not None and switch["done_at"] is not None:
+        tar, orc, name = switch["tar"], switch["orc"], switch["name"]  # what the simulation carries at the end
+    else:
+        orc, name = orc0, name0
     T = sim.charging_rates.shape[1]
     volt = {s["id"]: s["voltage"] for s in d["network"]["stations"]}
     power = [sum(volt[sid] * sim.charging_rates[i, k] for i, sid in enumerate(sim.network.station_ids)) / 1000.0 for k in range(T)]
